@@ -123,6 +123,7 @@ def run(ctx, rep):
     rep.check(len(qs) == 1 and all(s.dominates(qs[0], t) for t in tls), 'R-C15-4', 'times sorted before limits are derived', s.file, '', function='state_scrub', construct='sort first')
 
     dirty_bit_rule(P, rep, 'R-C15-8', 'state_scrub_process', {'info_set'})
+    counted_errors_block_refresh(P, rep, L, 'R-C15-2e')
     roles = quota_rule(P, rep, s, f, 5 if ctx.tier == 'quick' else 7)
     info_word_rule(P, rep, 'R-C15-6')
     plan_limits_rule(P, rep, s, {'full': full[0], 'bad': badp[0], 'new': newp[0]} if (len(full) == 1 and len(badp) == 1 and len(newp) == 1) else None, 'R-C15-7', roles)
@@ -328,3 +329,23 @@ def dirty_bit_rule(P, rep, rid, fname, modifiers):
         if any(r.id in esc for r in f.returns()):
             bad.append('the end of the function')
         rep.check(not bad, rid, '%s at line %s marks the state as modified' % (c.callee, c.line), c.loc(), 'need_write = 1 on every path' if not bad else 'reaches %s without state->need_write = 1: the change is lost when nothing else requests a save' % ' and '.join(bad), function=fname, construct='%s dirty bit' % c.callee)
+
+
+def counted_errors_block_refresh(P, rep, L, rid):
+    """a stripe on which scrub counted any error must not be booked as verified: every increment of an error counter inside the
+    stripe loop is followed, before the end of the iteration, by the per-stripe flag that keeps the refresh away (or by bail)"""
+    f = L.f
+    rep.rule(rid, 'scrub: every counted error of a stripe sets the per-stripe flag that blocks the time refresh (same pairing as R-C08-2, scrub engine)', 6)
+    header_first = L.block_first(L.header)
+    ends = list(f.calls('state_progress_end'))
+    if not ends:
+        raise AnalysisBroken('state_scrub_process: state_progress_end not found')
+    for counter, flag in (('error', 'error_on_this_block'), ('io_error', 'io_error_on_this_block'), ('silent_error', 'silent_error_on_this_block')):
+        stops = L.flag_stores(flag, 1) + [L.block_first(b) for b in L.bail]
+        for inc in L.increments(counter):
+            if inc.block not in L.body:
+                continue
+            esc = L.escapes_without(inc, stops, [header_first] + ends)
+            rep.check(not esc, rid, 'state_scrub_process: ++%s at line %s' % (counter, inc.line), inc.loc(),
+                      'followed by %s = 1 or bail' % flag if not esc else 'the error is counted but %s stays 0: the stripe is refreshed (time updated, marks cleared) although it was not verified' % flag,
+                      function='state_scrub_process', construct='++%s without %s (scrub)' % (counter, flag))
